@@ -426,7 +426,9 @@ void profile_io(Gen &g, bool damage_heavy) {
 			Op rb = g.mk(0, "rbasis"); g.seti(rb, "o", b.i("o")); g.seti(rb, "pick", foreign ? -2 : (long)r.below(8)); g.set(rb, "how", r.chance(1, 2) ? "read" : "load"); if (r.chance(1, 12)) g.seti(rb, "missing", 1); io_faults(rb, false); p.ops.push_back(rb);
 			if (r.chance(1, 2)) p.ops.push_back(g.gen_solve(0, ""));
 		} else {
-			Op f = g.mk(0, "foreign"); if (r.chance(1, 2)) g.seti(f, "o", r.below(4)); else g.seti(f, "lp", r.below(nl)); g.set(f, "fmt", r.chance(1, 2) ? "LP" : "MPS"); g.set(f, "path", strf("f%d", nfile++)); g.seti(f, "comp", r.below(3)); g.seti(f, "style", r.below(1000)); p.ops.push_back(f);
+			Op f = g.mk(0, "foreign"); if (r.chance(1, 2)) g.seti(f, "o", r.below(4)); else g.seti(f, "lp", r.below(nl)); g.set(f, "fmt", r.chance(1, 2) ? "LP" : "MPS"); g.set(f, "path", strf("f%d", nfile++)); g.seti(f, "comp", r.below(3)); g.seti(f, "style", r.below(1000));
+			if ((damage_heavy || g.faults) && r.chance(1, 3) && g.ok("foreign:mal")) g.seti(f, "mal", r.range(1, 60));   // structurally malformed on purpose
+			p.ops.push_back(f);
 			if (damage_heavy || (g.faults && r.chance(1, 2))) { Op dm = g.mk(0, "damage"); g.seti(dm, "pick", r.below(8)); g.set(dm, "kind", std::vector<std::string>{"torn", "flip", "token", "token", "block_dup"}[r.below(5)]); g.seti(dm, "at", r.below(100000)); g.seti(dm, "len", r.below(56)); g.seti(dm, "bit", r.below(8)); p.ops.push_back(dm); }
 			Op rd = g.mk(0, "read"); g.seti(rd, "pick", -1); g.set(rd, "via", r.chance(1, 3) ? "reader" : "path"); io_faults(rd, false); p.ops.push_back(rd);
 			if (r.chance(1, 2)) {   // what was read from a foreign producer (integer marks, odd layouts) goes through the library's own writers
